@@ -485,7 +485,8 @@ func (r *c15Run) exec(i int, s Step, maxInterval time.Duration) {
 		r.recordA()
 	case "fetchfail":
 		r.net.mu.Lock()
-		r.net.fetchFail[r.b.PID] += s.A
+		r.net.fetchFail[r.b.PID] = 1 + i*7 + s.A
+		r.net.fetchFailed = map[string]bool{}
 		r.net.mu.Unlock()
 		r.lastFaultAt = time.Now()
 		r.shape = append(r.shape, "fetchfail")
